@@ -405,10 +405,15 @@ fn lattice_plan(plan: u8) -> (DenominationPlan, PreparationPlan, AnchorBucketInt
 
 pub fn lattice_state(p: &Point) -> MigrationState {
     let (den, prep, grid, thr) = lattice_plan(p.plan);
+    // Dependency lists in topological order (dependencies have lower ids) for one half of the
+    // lattice and dependents-first (a reversed chain: 0 needs 1 needs 2) for the other: the
+    // constructors and the stores accept any order.
+    let deps: [Vec<u32>; 3] = if p.lock { [vec![1], vec![2], vec![]] } else { [vec![], vec![0], vec![1, 0]] };
+    let [d0, d1, d2] = deps;
     let txs = vec![
-        lattice_tx(0, p.state, p.mark, p.report, p.lock, p.transfer, vec![]),
-        lattice_tx(1, (p.state + 1) % 5, (p.mark + 2) % 5, !p.report, !p.lock, !p.transfer, vec![0]),
-        lattice_tx(2, (p.state + 3) % 5, (p.mark + 4) % 5, p.report, !p.lock, true, vec![1, 0]),
+        lattice_tx(0, p.state, p.mark, p.report, p.lock, p.transfer, d0),
+        lattice_tx(1, (p.state + 1) % 5, (p.mark + 2) % 5, !p.report, !p.lock, !p.transfer, d1),
+        lattice_tx(2, (p.state + 3) % 5, (p.mark + 4) % 5, p.report, !p.lock, true, d2),
     ];
     MigrationState::from_parts(STATUSES[p.status as usize], den, prep, txs, grid, thr)
 }
